@@ -22,3 +22,11 @@ Fixpoint go_has_prefix (s p : str) : bool :=
 Definition go_has_suffix (s p : str) : bool := go_has_prefix (rev s) (rev p).
 Definition go_trim_prefix (s p : str) : str := if go_has_prefix s p then skipn (length p) s else s.
 Definition go_trim_suffix (s p : str) : str := if go_has_suffix s p then firstn (length s - length p) s else s.
+
+(** ** go/types objects the translated builder code (gen/GoFuns.v, module GoNode) handles:
+    a *types.Var is the model's [field]; a *types.Func is a name with its signature. *)
+From Cvg Require Import GoTypes.
+Record go_func := { gf_name : str; gf_sig : sig }.
+
+(** sig.Results().At(k).Type(): go/types panics past the end; the model's invalid type there *)
+Definition go_nth_type (l : list ty) (k : nat) : ty := nth k l invalid_ty.
